@@ -295,6 +295,16 @@ func (s *mrState) pure(e ast.Expr, allow ...types.Object) bool {
 			return false
 		}
 		switch n := n.(type) {
+		case *ast.IndexExpr:
+			// another map read under the range key itself (cur := acc[name] while ranging over other by name): each
+			// iteration sees only the entry of its own key, which no other iteration touches
+			if s.keyObj != nil && objOf(s.info, n.Index) == s.keyObj {
+				if bo := objOf(s.info, n.X); bo != nil {
+					if _, isMap := bo.Type().Underlying().(*types.Map); isMap {
+						return false
+					}
+				}
+			}
 		case *ast.Ident:
 			o := s.info.Uses[n]
 			if o != nil && s.outer[o] {
